@@ -47,6 +47,13 @@
 (*      files re-read at that moment): an acknowledgement is POSITIVE only *)
 (*      when the record - entry and value frame - is in that follower's    *)
 (*      own log and its write did not fail.                                *)
+(*  (3b) the rollback is judged for every kind of value operation the       *)
+(*      failed request carried (the request event carries the decoded      *)
+(*      operation name `dop` / `dsubs`, snapshots the state class of each  *)
+(*      key's value `vcls`: none / unset / value / props - both only for   *)
+(*      the violation record); a queued dataless request that is served in *)
+(*      the step in which the pending request failed must be handed the    *)
+(*      value before the grant in its SUCCED reply.                        *)
 (* Agnostic where the statement is silent: the required number is the      *)
 (* MINIMUM over the configurations seen while the request was pending; a   *)
 (* negative ack dooms the request only when the remaining followers cannot *)
@@ -96,6 +103,7 @@ M0 == [ reqs |-> EmptyFn,      \* request id -> record
         failed |-> <<>>,       \* pending requests answered with an error since the last snapshot
         touch |-> {},          \* <<key, request id>>: value-carrying lock requests answered since the last snapshot
         last |-> EmptyFn,      \* <<db,key>> -> value (hex) at the last snapshot
+        lastcls |-> EmptyFn,   \* <<db,key>> -> state class of the value at the last snapshot (none / unset / value / props)
         nf |-> 0, mode |-> 0, leader |-> TRUE, demoted |-> FALSE,
         fside |-> FALSE,       \* history of the follower part of engine A
         frecs |-> EmptyFn,     \* follower part: record id -> [ack, hasval, key, lid]
@@ -114,7 +122,8 @@ StepReq(mm, e) ==
         pa == {rid \in DOMAIN mm.pend : mm.pend[rid].k = k /\ mm.pend[rid].lid = e.lid}
         r  == [id |-> e.id, cmd |-> e.cmd, db |-> e.db, key |-> e.key, lid |-> e.lid, flag |-> e.flag, tf |-> e.tf,
                to |-> e.to, ex |-> e.ex, data |-> e.data, st |-> "open", ack |-> IsAckReq(e), pa |-> pa,
-               ldr |-> mm.leader, drain |-> ("drain" \in DOMAIN e)]
+               ldr |-> mm.leader, drain |-> ("drain" \in DOMAIN e),
+               dop |-> IF "dop" \in DOMAIN e THEN e.dop ELSE "", dsubs |-> IF "dsubs" \in DOMAIN e THEN e.dsubs ELSE <<>>]
     IN [mm EXCEPT !.reqs = SetFn(@, e.id, r), !.t = e.t]
 
 \* ---------------------------------------------------------------- replies
@@ -133,13 +142,26 @@ StepReply(mm0, e) ==
         exempt == r.cmd = "L" /\ (Bit(r.flag, F_SHOW) \/ Bit(r.flag, F_CONC))
         m2 == Check(m1, r.pa = {} \/ ~r.ldr \/ exempt \/ e.res = ACK_WAITING, "pending-lockid-not-answered-ack-waiting",
                     [rid |-> e.rid, cmd |-> r.cmd, key |-> r.key, lid |-> r.lid, res |-> e.res, pending |-> SetToSeq(r.pa)])
+        \* (3b) a queued dataless request served in the step in which a pending value-carrying request failed on its key:
+        \* its SUCCED reply shows the key's value at its grant, which must be the value before the failed request's grant
+        Fk == SelectSeq(mm.failed, LAMBDA F : F.k = k)
+        judged == /\ r.cmd = "L" /\ ~r.ack /\ r.data = "" /\ r.flag = 0 /\ e.res = SUCCED /\ "data" \in DOMAIN e
+                  /\ Len(Fk) = 1 /\ Fk[1].hasdata /\ Fk[1].vb # "?" /\ Fk[1].alone /\ ~Fk[1].mixed
+                  /\ ~\E x \in mm.touch : x[1] = k /\ x[2] # Fk[1].rid
+                  /\ ~(Fk[1].vb = "" /\ "data_empty" \in DOMAIN e /\ e.data_empty)      \* (reported from the snapshot under its own code)
+        m2b == IF judged /\ e.data # Fk[1].vb
+               THEN Report(m2, "queued-request-served-with-unrestored-value",
+                           [rid |-> e.rid, key |-> r.key, lid |-> r.lid, handed |-> e.data, before_grant |-> Fk[1].vb, failed_rid |-> Fk[1].rid,
+                            failed_res |-> Fk[1].res, op |-> Fk[1].op, subops |-> Fk[1].subs,
+                            last_subop |-> IF Len(Fk[1].subs) > 0 THEN Fk[1].subs[Len(Fk[1].subs)] ELSE "", prior |-> Fk[1].vbcls])
+               ELSE m2
     IN
-    IF ~r.ack THEN m2
+    IF ~r.ack THEN m2b
     ELSE
     LET seen == e.rid \in DOMAIN mm.pend
         p    == IF seen THEN mm.pend[e.rid]
                 ELSE [k |-> k, lid |-> r.lid, vb |-> "?", hasdata |-> FALSE, acks |-> {}, negs |-> {}, reqmin |-> Required(mm.mode, mm.nf),
-                      nf0 |-> mm.nf, req0 |-> Required(mm.mode, mm.nf), cfgchanged |-> FALSE, doomed |-> FALSE, why |-> "", flushed |-> FALSE, mixed |-> FALSE]
+                      nf0 |-> mm.nf, req0 |-> Required(mm.mode, mm.nf), cfgchanged |-> FALSE, doomed |-> FALSE, why |-> "", flushed |-> FALSE, mixed |-> FALSE, vbcls |-> "?"]
     IN
     IF e.res = SUCCED
     THEN LET disk == "ondisk" \in DOMAIN e /\ e.ondisk
@@ -163,7 +185,7 @@ StepReply(mm0, e) ==
     ELSE IF seen
          THEN \* a pending request is answered with an error: cleanup judged at the next snapshot
               [m2 EXCEPT !.pend = DelFn(@, {e.rid}),
-                         !.failed = Append(@, [rid |-> e.rid, k |-> k, lid |-> r.lid, vb |-> p.vb, hasdata |-> p.hasdata, res |-> e.res, mixed |-> p.mixed, rdata |-> e.data, rempty |-> ("data_empty" \in DOMAIN e /\ e.data_empty),
+                         !.failed = Append(@, [rid |-> e.rid, k |-> k, lid |-> r.lid, vb |-> p.vb, hasdata |-> p.hasdata, res |-> e.res, mixed |-> p.mixed, rdata |-> e.data, op |-> r.dop, subs |-> r.dsubs, vbcls |-> p.vbcls, rempty |-> ("data_empty" \in DOMAIN e /\ e.data_empty),
                                                alone |-> ~\E r2 \in (DOMAIN mm.pend) \ {e.rid} : mm.pend[r2].k = k /\ mm.pend[r2].hasdata])]
          ELSE m2
 
@@ -246,7 +268,8 @@ StepSnap(mm0, e) ==
                 a2 == IF ~F.hasdata \/ F.vb = "?" \/ others # {} \/ touched \/ ~F.alone \/ F.mixed \/ (I = {} /\ F.rdata = "") \/ seenval = F.vb THEN a1
                       ELSE Report(a1, IF F.vb = "" /\ zeroish THEN "unset-value-restored-as-empty-value" ELSE "value-not-restored-after-failed-ack",
                                   [rid |-> F.rid, key |-> F.k[2], lid |-> F.lid, res |-> F.res, value |-> seenval, before_grant |-> F.vb,
-                                   from_snapshot |-> (I # {})])
+                                   from_snapshot |-> (I # {}), op |-> F.op, subops |-> F.subs,
+                                   last_subop |-> IF Len(F.subs) > 0 THEN F.subs[Len(F.subs)] ELSE "", prior |-> F.vbcls])
                 stuck == /\ Len(ks.waiters) > 0 /\ mm.leader /\ e.leader
                          /\ ~Bit(ks.waiters[1].tf, TF_WAITUNLOCK)
                          /\ \/ ks.locked = 0
@@ -271,7 +294,8 @@ StepSnap(mm0, e) ==
                 rq == Required(e.mode, e.nf)
             IN [acc EXCEPT !.pend = SetFn(@, h.rid,
                     [k |-> k, lid |-> h.lid, vb |-> VbOf(k, h.rid), hasdata |-> (m1.reqs[h.rid].data # ""), acks |-> {}, negs |-> {},
-                     reqmin |-> rq, nf0 |-> e.nf, req0 |-> rq, cfgchanged |-> FALSE, doomed |-> FALSE, why |-> "", flushed |-> FALSE, mixed |-> FALSE])]
+                     reqmin |-> rq, nf0 |-> e.nf, req0 |-> rq, cfgchanged |-> FALSE, doomed |-> FALSE, why |-> "", flushed |-> FALSE, mixed |-> FALSE,
+                     vbcls |-> IF VbOf(k, h.rid) = Get(mm.last, k, "") THEN Get(mm.lastcls, k, "none") ELSE "?"])]
         m2 == FoldLeft(AddP, m1, SetToSeq(NewP))
         \* --- the configuration seen while pending
         \* value operations of several requests overlapped on the key (shared key) while rid was pending: "the value
@@ -289,6 +313,9 @@ StepSnap(mm0, e) ==
                                                                          !.cfgchanged = @ \/ (e.nf # m2.pend[rid].nf0)]],
                          !.nf = e.nf, !.mode = e.mode, !.leader = e.leader,
                          !.last = [k \in {<<e.keys[i].db, e.keys[i].key>> : i \in K} |-> DataOf(e, k)],
+                         !.lastcls = IF "vcls" \in DOMAIN e THEN [k \in {<<e.vcls[i][1], e.vcls[i][2]>> : i \in 1..Len(e.vcls)} |->
+                                                                   LET j == CHOOSE i \in 1..Len(e.vcls) : <<e.vcls[i][1], e.vcls[i][2]>> = k IN e.vcls[j][3]]
+                                     ELSE EmptyFn,
                          !.failed = <<>>, !.touch = {}]
     IN m3
 
